@@ -1438,7 +1438,7 @@ int main(int argc, char **argv)
 		else { fprintf(stderr, "h_util: unknown mode\n"); return 2; }
 	}
 	alarm(0);
-	if (wr_maxdraws) { char nm[48]; snprintf(nm, sizeof(nm), "wr_max_draws_seen_ge_%ld", wr_maxdraws); vh_stat(nm); }
+	if (wr_maxdraws) { char nm[48]; snprintf(nm, sizeof(nm), "wr_shards_whose_max_draws_was_%ld", wr_maxdraws); vh_stat(nm); }
 	ob_free();
 	vh_finish();
 	return 0;
